@@ -219,6 +219,10 @@ def runM (C : Codecs) (c : Cmd) (env : Env) : Outcome MState :=
 structure UState where
   P : Bytes
   D : Bytes
+  /-- what lies behind each stream inside its backing array, up to the capacity: a Go slice
+      expression `s[lo:hi]` is checked against `cap(s)`, not `len(s)` -/
+  Pext : Bytes := []
+  Dext : Bytes := []
   wordCount : Nat
   offset : Nat := 0
   bytesRead : Nat := 0
@@ -239,6 +243,15 @@ def UState.blk (s : UState) : Blk → Bytes
   | .P => s.P
   | .D => s.D
 
+def UState.ext (s : UState) : Blk → Bytes
+  | .P => s.Pext
+  | .D => s.Dext
+
+/-- Go `b[lo:hi]` on a slice with spare capacity `ext`: panics unless `lo ≤ hi ≤ cap`; the result may
+    reach into the bytes behind `len` -/
+def sliceC (b ext : Bytes) (lo hi : Nat) : Outcome Bytes :=
+  if lo ≤ hi ∧ hi ≤ b.length + ext.length then .ok (((b ++ ext).drop lo).take (hi - lo)) else .panic
+
 def evalExpr (s : UState) : Expr → Option Nat
   | .lit n => some n
   | .fint f => match s.env.get f with | some (.n x) => some x | _ => none
@@ -258,23 +271,23 @@ def liftO {α} (s : UState → α → UState) (st : UState) : Outcome α → Ste
   | .panic => .panic
 
 /-- counted loop reading `count` w-byte integers (no guard inside the loop, as in the code) -/
-def readInts (blk : Bytes) (w : Nat) (e : End) : (count offset : Nat) → List Nat → Outcome (List Nat × Nat)
+def readInts (blk ext : Bytes) (w : Nat) (e : End) : (count offset : Nat) → List Nat → Outcome (List Nat × Nat)
   | 0, off, acc => .ok (acc, off)
   | n+1, off, acc =>
-    match slice blk off (off + w) with
-    | .ok bs => readInts blk w e n (off + w) (acc ++ [intVal e bs])
+    match sliceC blk ext off (off + w) with
+    | .ok bs => readInts blk ext w e n (off + w) (acc ++ [intVal e bs])
     | .err => .err
     | .panic => .panic
 
 /-- `for i < count { if len(blk) < offset+size {err}; x.Unmarshal(blk[offset:offset+size]); offset += bytesRead }` -/
-def readSubsCounted (C : Codecs) (typ : String) (blk : Bytes) (size : Nat) :
+def readSubsCounted (C : Codecs) (typ : String) (blk ext : Bytes) (size : Nat) :
     (count offset : Nat) → List Tup → Outcome (List Tup × Nat)
   | 0, off, acc => .ok (acc, off)
   | n+1, off, acc =>
     if blk.length < off + size then .err
-    else match slice blk off (off + size) with
+    else match sliceC blk ext off (off + size) with
       | .ok w => match C.dec typ w with
-        | .ok (v, k) => readSubsCounted C typ blk size n (off + k) (acc ++ [v])
+        | .ok (v, k) => readSubsCounted C typ blk ext size n (off + k) (acc ++ [v])
         | .err => .err
         | .panic => .panic
       | .err => .err
@@ -283,29 +296,33 @@ def readSubsCounted (C : Codecs) (typ : String) (blk : Bytes) (size : Nat) :
 /-- `for offset+size <= len(blk) { x.Unmarshal(blk[offset:offset+size]); offset += bytesRead }`;
     `fuel` bounds the iterations (each must advance; a zero advance would loop forever in Go:
     reported as `panic` when the fuel runs out) -/
-def readSubsWhile (C : Codecs) (typ : String) (blk : Bytes) (size : Nat) :
+def readSubsWhile (C : Codecs) (typ : String) (blk ext : Bytes) (size : Nat) :
     (fuel offset : Nat) → List Tup → Outcome (List Tup × Nat)
   | 0, off, acc => if off + size ≤ blk.length then .panic else .ok (acc, off)
   | n+1, off, acc =>
     if off + size ≤ blk.length then
-      match slice blk off (off + size) with
+      match sliceC blk ext off (off + size) with
       | .ok w => match C.dec typ w with
-        | .ok (v, k) => readSubsWhile C typ blk size n (off + k) (acc ++ [v])
+        | .ok (v, k) => readSubsWhile C typ blk ext size n (off + k) (acc ++ [v])
         | .err => .err
         | .panic => .panic
       | .err => .err
       | .panic => .panic
     else .ok (acc, off)
 
-/-- `utils.GetNullTerminatedUnicodeString`: scan 16-bit units until 0x0000; returns the bytes before
-    it and the offset after the terminator.  Panics (index out of range) on an odd or unterminated
-    buffer, exactly as the Go loop `for i := 0; ; i += 2 { data[i], data[i+1] }` does. -/
-def cstrUnicodeAux : (fuel : Nat) → Bytes → Nat → Bytes → Outcome (Bytes × Nat)
-  | 0, _, _, _ => .panic
+/-- `utils.GetNullTerminatedUnicodeString`: `for i := 0; i+1 < len(data); i += 2` collects 16-bit
+    units until 0x0000; returns the bytes before it and `min(len(collected)+2, len(data))`.
+    `fuel` is the structural argument. -/
+def cstrUnicodeAux : (fuel : Nat) → Bytes → Nat → Bytes → Bytes
+  | 0, _, _, acc => acc
   | n+1, d, i, acc =>
     match d[i]?, d[i+1]? with
-    | some a, some b => if a = 0 ∧ b = 0 then .ok (acc, i + 2) else cstrUnicodeAux n d (i + 2) (acc ++ [a, b])
-    | _, _ => .panic
+    | some a, some b => if a = 0 ∧ b = 0 then acc else cstrUnicodeAux n d (i + 2) (acc ++ [a, b])
+    | _, _ => acc
+
+def cstrUnicode (d : Bytes) : Bytes × Nat :=
+  let s := cstrUnicodeAux (d.length + 1) d 0 []
+  (s, min (s.length + 2) d.length)
 
 mutual
 def runUStmt (C : Codecs) (s : UState) : UStmt → Step UState
@@ -317,24 +334,24 @@ def runUStmt (C : Codecs) (s : UState) : UStmt → Step UState
     | some n => if (s.blk b).length < s.offset + n then .err else .next s
     | none => .stuck
   | .readInt b w e f =>
-    liftO (fun st bs => { st with env := st.env.set f (.n (intVal e bs)) }) s (slice (s.blk b) s.offset (s.offset + w))
+    liftO (fun st bs => { st with env := st.env.set f (.n (intVal e bs)) }) s (sliceC (s.blk b) (s.ext b) s.offset (s.offset + w))
   | .readQuad b w e f =>
-    liftO (fun st bs => { st with env := st.env.set f (.n (intVal e bs)) }) s (slice (s.blk b) s.offset (s.offset + w))
+    liftO (fun st bs => { st with env := st.env.set f (.n (intVal e bs)) }) s (sliceC (s.blk b) (s.ext b) s.offset (s.offset + w))
   | .readU8 b f =>
     liftO (fun st x => { st with env := st.env.set f (.n x.toNat) }) s (index (s.blk b) s.offset)
   | .readBytes b f n =>
     match evalExpr s n with
-    | some k => liftO (fun st bs => { st with env := st.env.set f (.b bs) }) s (slice (s.blk b) s.offset (s.offset + k))
+    | some k => liftO (fun st bs => { st with env := st.env.set f (.b bs) }) s (sliceC (s.blk b) (s.ext b) s.offset (s.offset + k))
     | none => .stuck
   | .readRest b f =>
     liftO (fun st bs => { st with env := st.env.set f (.b bs) }) s (sliceFrom (s.blk b) s.offset)
   | .readArr b f n =>
-    liftO (fun st bs => { st with env := st.env.set f (.b bs) }) s (slice (s.blk b) s.offset (s.offset + n))
+    liftO (fun st bs => { st with env := st.env.set f (.b bs) }) s (sliceC (s.blk b) (s.ext b) s.offset (s.offset + n))
   | .readSub b f typ win whole checked stores =>
     let window : Outcome Bytes :=
       if whole then .ok (s.blk b) else
       match win with
-      | some n => slice (s.blk b) s.offset (s.offset + n)
+      | some n => sliceC (s.blk b) (s.ext b) s.offset (s.offset + n)
       | none => sliceFrom (s.blk b) s.offset
     match window with
     | .ok w =>
@@ -366,7 +383,7 @@ def runUStmt (C : Codecs) (s : UState) : UStmt → Step UState
   | .forCountInt b w e f g =>
     match s.env.get g with
     | some (.n k) =>
-      match readInts (s.blk b) w e k s.offset [] with
+      match readInts (s.blk b) (s.ext b) w e k s.offset [] with
       | .ok (xs, off) => .next { s with env := s.env.set f (.ns xs), offset := off }
       | .err => .err
       | .panic => .panic
@@ -374,7 +391,7 @@ def runUStmt (C : Codecs) (s : UState) : UStmt → Step UState
   | .forRangeInt b w e f =>
     match s.env.get f with
     | some (.ns old) =>
-      match readInts (s.blk b) w e old.length s.offset [] with
+      match readInts (s.blk b) (s.ext b) w e old.length s.offset [] with
       | .ok (xs, off) => .next { s with env := s.env.set f (.ns xs), offset := off }
       | .err => .err
       | .panic => .panic
@@ -382,7 +399,7 @@ def runUStmt (C : Codecs) (s : UState) : UStmt → Step UState
   | .forCountSub b f g typ size =>
     match s.env.get g, s.env.get f with
     | some (.n k), some (.ts old) =>
-      match readSubsCounted C typ (s.blk b) size k s.offset old with
+      match readSubsCounted C typ (s.blk b) (s.ext b) size k s.offset old with
       | .ok (vs, off) => .next { s with env := s.env.set f (.ts vs), offset := off }
       | .err => .err
       | .panic => .panic
@@ -390,19 +407,17 @@ def runUStmt (C : Codecs) (s : UState) : UStmt → Step UState
   | .whileFitsSub b f typ size =>
     match s.env.get f with
     | some (.ts old) =>
-      match readSubsWhile C typ (s.blk b) size ((s.blk b).length + 1) s.offset old with
+      match readSubsWhile C typ (s.blk b) (s.ext b) size ((s.blk b).length + 1) s.offset old with
       | .ok (vs, off) => .next { s with env := s.env.set f (.ts vs), offset := off }
       | .err => .err
       | .panic => .panic
     | _ => .stuck
   | .cstrUnicode f =>
-    match cstrUnicodeAux (s.D.length + 1) s.D 0 [] with
-    | .ok (bs, off) => .next { s with env := s.env.set f (.b bs), offset := off }
-    | .err => .err
-    | .panic => .panic
+    let (bs, off) := cstrUnicode s.D
+    .next { s with env := s.env.set f (.b bs), offset := off }
   | .readArr3 b f =>
-    match slice (s.blk b) s.offset (s.offset + 4), slice (s.blk b) (s.offset + 4) (s.offset + 8),
-          slice (s.blk b) (s.offset + 8) (s.offset + 12) with
+    match sliceC (s.blk b) (s.ext b) s.offset (s.offset + 4), sliceC (s.blk b) (s.ext b) (s.offset + 4) (s.offset + 8),
+          sliceC (s.blk b) (s.ext b) (s.offset + 8) (s.offset + 12) with
     | .ok x, .ok y, .ok z => .next { s with env := s.env.set f (.ns [leNat x, leNat y, leNat z]) }
     | _, _, _ => .panic
 def runUStmts (C : Codecs) (s : UState) : List UStmt → Step UState
@@ -419,8 +434,8 @@ end
 /-- Unmarshal of a command body on the two streams: the environment of field values on success
     (also on the early `return 0, nil`), `err`, or `panic`.  `env0` = the values of a freshly
     constructed command (`New…()` + `Init()`). -/
-def runU (C : Codecs) (c : Cmd) (env0 : Env) (wordCount : Nat) (P D : Bytes) : Outcome Env :=
-  let s0 : UState := { P := P, D := D, wordCount := wordCount, env := env0 }
+def runU (C : Codecs) (c : Cmd) (env0 : Env) (wordCount : Nat) (P D : Bytes) (Pext Dext : Bytes := []) : Outcome Env :=
+  let s0 : UState := { P := P, D := D, Pext := Pext, Dext := Dext, wordCount := wordCount, env := env0 }
   -- the early return keeps what has been assigned so far; we track it by re-running up to `ret`
   let rec go (s : UState) : List UStmt → Outcome Env
     | [] => .ok s.env
